@@ -19,5 +19,9 @@ def run(out, sc, tier, seed):
     # every scheme of the interpreter's urllib tables as the base's scheme (authority / rooted / rootless; auto-encoded and verbatim,
     # the latter keeping dot segments in the base) x the reference shapes of RFC 3986 5.4
     run_progs(out, sc, "C14", {"gen": "joinschemes", "fields": FIELDS}, "join-schemes", nslices=6)
+    # join() concurrently on DIFFERENT bases (and the other operations that could keep scratch state between calls): a reduced run
+    # of the thread executions; every concurrent result must be the sequential one (TraceMem, C14.stable)
+    from .c20 import thread_executions
+    thread_executions(out, sc, tier, seed, "C14", scale=0.25)
     from .common import run_witnesses
     run_witnesses(out, sc, "C14", fields=FIELDS)
